@@ -174,21 +174,35 @@ def rule_absent(E, R):
     fn = "ast::index_expr::IndexExpr::compile_vec_with"
     h = E.hir(fn)
     if h:
-        ms = [m for m in exprs(h["body"], "MethodCall") if m["m"] == "map_or"]
-        R.floor(rule, "map_or sites in compile_vec_with", len(ms), 2)
-        for m in ms:
-            d = def_path(m["args"][0]) or ""
-            R.check(d.endswith("BOOL_ARRAY"), rule, fn, "absent container / index -> empty result", d, m["sp"])
-            clo = closure_of(m["args"][1])
+        S = sem.Sem(E, h, inline=False)
+        closures = [closure_of(c["args"][0]) for c in exprs(h["body"], "Call")
+                    if norm(c.get("callee", "")) == "filter::CompiledVecExpr::new" and c.get("args") and closure_of(c["args"][0])]
+        R.floor(rule, "run-time closures in compile_vec_with", len(closures), 2)
+        for clo in closures:
+            inner = [x for x in S.sites() if sem.within(x, clo)]
+            # (a) the absent container / index yields the empty constant: the default of `map_or`, or the value of the `None` branch
+            empties = [x for x in inner if x.node.get("k") == "Path" and (def_path(x.node) or "").endswith("BOOL_ARRAY")]
+            absent_ok = False
+            for x in empties:
+                as_default = any(y.node.get("k") == "MethodCall" and y.node["m"] in ("map_or", "map_or_else", "unwrap_or") and
+                                 y.node.get("args") and strip(y.node["args"][0]) is x.node for y in inner)
+                under_none = any(a_.kind == "is" and ((pol and {sem.variant_head(z[0]) for z in a_.alts} == {"Option::None"}) or
+                                                      (not pol and {sem.variant_head(z[0]) for z in a_.alts} == {"Option::Some"}))
+                                 for a_, pol in sem.is_literals(x.pc))
+                absent_ok = absent_ok or as_default or under_none
+            R.check(len(empties) == 1 and absent_ok, rule, fn, "absent container / index -> empty result",
+                    "%d uses of the empty constant in the closure" % len(empties), clo["sp"])
+            # (b) every element of the present container is compared, in iteration order
             ok = False
-            if clo:
-                fi = [x for x in exprs(clo["body"], "Call") if norm(x.get("callee", "")).endswith("FromIterator::from_iter")]
-                if fi:
-                    root, ch = chain(fi[0]["args"][0])
-                    ms_ = [x["m"] for x in ch]
-                    ok = ms_[:2] == ["iter", "unwrap"] and chain_verdict([x for x in ch if x["m"] != "unwrap"]) == "ok" and \
-                        local_name(root) in closure_param_names(clo, 0)
-            R.check(ok, rule, fn, "every element of the container is compared, in iteration order", where=m["sp"])
+            fi = [x for x in inner if x.node.get("k") == "Call" and norm(x.node.get("callee", "")).endswith("FromIterator::from_iter")]
+            if len(fi) == 1:
+                root, ch = chain(fi[0].node["args"][0])
+                ms_ = [y["m"] for y in ch]
+                rb = S.lookup(root, fi[0].frame)
+                present = rb is not None and (rb.kind == "closure-param" or (rb.kind == "pat" and rb.proj and rb.proj[0][:2] == ("v", "Option::Some")))
+                ok = ms_[:2] == ["iter", "unwrap"] and chain_verdict([y for y in ch if y["m"] != "unwrap"]) == "ok" and present and \
+                    any(norm(c_.get("callee", "")).endswith("Compare::compare") for c_ in exprs(fi[0].node, "MethodCall"))
+            R.check(ok, rule, fn, "every element of the container is compared, in iteration order", where=clo["sp"])
     else:
         R.cannot(rule, fn, "anchor not found")
     fn = "ast::index_expr::IndexExpr::compile_iter_with"
